@@ -306,11 +306,21 @@ fn place(e: Envelope, position: usize) -> Envelope {
 
 fn stream_b(src: &mut Src, ctx: &mut Ctx) -> Outcome {
     let n = 2 + src.below(5);
-    let ints = src.bool();
+    // one byte decides the element type (as before: >= 128 integers, else strings) and, among strings,
+    // the family: below 56, strings of equal length with a long common prefix (their encodings agree
+    // in the first 30 bytes and differ only at the end)
+    let tb = src.byte();
+    let ints = tb >= 128;
+    let long_prefix = tb < 56;
+    if long_prefix {
+        ctx.class("collection:long-common-prefix");
+    }
     let mut elems: Vec<Elem> = Vec::new();
     for i in 0..n {
         let e = if ints {
             Elem::I(*src.pick(&[0i64, 1, -1, 23, 24, 255, 256, -256, 65536, 1 << 40, -(1 << 40), 7, 1000]) + i as i64 * 100_003)
+        } else if long_prefix {
+            Elem::S(format!("urn:verif:a-common-prefix:item-{:03}", src.below(16) * 8 + i))
         } else {
             Elem::S(format!("{}{}", gen::POOL[src.below(gen::POOL.len())], i))
         };
@@ -425,7 +435,18 @@ fn stream_b(src: &mut Src, ctx: &mut Ctx) -> Outcome {
         };
         check!(ctx, outs[0] == expect.tagged(), "collection", &key, "map encoding differs from the deterministic (sorted-key) encoding: {} vs {}", hex::encode(&outs[0]), hex::encode(expect.tagged()));
     }
-    let _ = cbor::encode;
+    // sets: pinned to the array of the elements in ascending order of their encodings
+    if kind == 2 || kind == 4 {
+        let mut items: Vec<Item> = elems.iter().map(|e| e.item()).collect();
+        items.sort_by_key(|i| cbor::encode(i));
+        let leaf = M::leaf_item(&Item::A(items));
+        let expect = match position {
+            0 => leaf,
+            1 => M::text("s").add(M::assertion(leaf, M::text("o"))),
+            _ => M::text("s").add(M::assertion(M::text("p"), leaf)),
+        };
+        check!(ctx, outs[0] == expect.tagged(), "collection", &key, "set encoding differs from the array of its elements in ascending encoded order: {} vs {}", hex::encode(&outs[0]), hex::encode(expect.tagged()));
+    }
     ctx.nontrivial = true;
     Outcome::Pass
 }
